@@ -533,6 +533,53 @@ def oct_secrets_that_look_like_something(ctx, rng):
                             ctx.violation("oct-secret-reinterpreted:mac", f"HS256 under the key imported from {v!r} is not HMAC-SHA256 under those octets", case)
 
 
+def rsa_short_private_members(ctx, rng):
+    """RSA keys one of whose private numbers (d, dp, dq, qi, or p / q) is shorter than its nominal width - about one key in sixty - found by generating keys:
+    every exported integer is minimal (no leading zero octet), through every export of the private JWK, and imports again as the same key"""
+    from cryptography.hazmat.primitives.asymmetric import rsa
+    from ..keystrata import numbers_of_native
+    j = J.load()
+    found = []
+    tries = 0
+    while len(found) < 3 and tries < 4000 and not ctx.out_of_time():
+        tries += 1
+        k = rsa.generate_private_key(65537, 1024)
+        n = k.private_numbers()
+        size = (k.key_size + 7) // 8
+        half = (size + 1) // 2
+        short = [name for name, val, width in (("d", n.d, size), ("dp", n.dmp1, half), ("dq", n.dmq1, half), ("qi", n.iqmp, half)) if (val.bit_length() + 7) // 8 < width]
+        if short:
+            found.append((k, short))
+    ctx.count("rsa_keys_generated_for_short_members", tries)
+    for k, short in found:
+        n = k.private_numbers()
+        want = {"n": n.public_numbers.n, "e": n.public_numbers.e, "d": n.d, "p": n.p, "q": n.q, "dp": n.dmp1, "dq": n.dmq1, "qi": n.iqmp}
+        from cryptography.hazmat.primitives import serialization as ser
+        pem = k.private_bytes(ser.Encoding.PEM, ser.PrivateFormat.PKCS8, ser.NoEncryption())
+        for how, mk in (("pem", lambda: j.RSAKey.import_key(pem)), ("jwk", lambda: j.RSAKey.import_key({"kty": "RSA", **{m: int_b64(v) for m, v in want.items()}}))):
+            ctx.ev()
+            key = call(mk)
+            ctx.count("rsa_short_member_keys")
+            ctx.nontrivial(("rsa-short", tuple(short), how))
+            case = {"rsa_short_private_members": True, "short": short, "how": how}
+            if not key.ok:
+                ctx.violation(f"import-fails:{key.key}", f"RSA key with short {short} ({how}): {key.exc!r}", case)
+                continue
+            for via, f in (("as_dict(private=True)", lambda: key.value.as_dict(private=True)), ("KeySet.as_dict(private=True)", lambda: j.KeySet([key.value]).as_dict(private=True)["keys"][0])):
+                d = call(f)
+                if not d.ok:
+                    ctx.violation(f"export-fails:{d.key}", f"{via} of an RSA key with short {short}: {d.exc!r}", case)
+                    continue
+                for m, v in want.items():
+                    raw = b64u_dec(d.value[m])
+                    if int.from_bytes(raw, "big") != v or (raw[:1] == b"\x00" and len(raw) > 1) or "=" in d.value[m]:
+                        ctx.violation(f"rsa-member-not-minimal:{m}", f"{via}: member {m} of an RSA key whose {short} is short is exported as {len(raw)} octets starting {raw[:2].hex()} "
+                                      f"(minimal: {(v.bit_length() + 7) // 8} octets)", {**case, "member": m})
+                back = call(j.RSAKey.import_key, d.value)
+                if not back.ok or numbers_of_native(back.value.raw_value).get("d") != n.d:
+                    ctx.violation("rsa-short-member-reimport", f"the private JWK exported for an RSA key with short {short} does not import as the same key: {back.exc!r}", case)
+
+
 def run_shard(ctx):
     J.load()
     rng = ctx.rng
@@ -542,6 +589,8 @@ def run_shard(ctx):
         marker_word_keys(ctx, rng)
     if ctx.shard == 6:
         oct_secrets_that_look_like_something(ctx, rng)
+    if ctx.shard == 7:
+        rsa_short_private_members(ctx, rng)
     kinds = list(K.KINDS) + list(K.UNUSUAL_RSA)
     if ctx.tier == "thorough":
         kinds += ["RSA:3072"] + (["RSA:4096"] if ctx.shard == 0 else [])
